@@ -941,10 +941,13 @@ func genDecSysCases(r *Rng, n int, w *bufio.Writer) {
 			starts = starts[:3]
 		}
 		var keys [][]byte
+		// the secp256k1 generator: a key the per-field key checks accept (compressed, and its x coordinate alone)
+		gx, _ := hex.DecodeString("79be667ef9dcbbac55a06295ce870b07029bfcdb2dce28d959f2815b16f81798")
 		for typ := 0; typ <= 0x22; typ++ {
 			for _, l := range []int{0, 1, 19, 31} {
 				keys = append(keys, append([]byte{byte(typ)}, make([]byte, l)...))
 			}
+			keys = append(keys, append([]byte{byte(typ), 0x02}, gx...), append([]byte{byte(typ)}, gx...))
 		}
 		for sub := 0; sub <= 0x18; sub++ {
 			for _, l := range []int{0, 1, 31} {
@@ -953,7 +956,7 @@ func genDecSysCases(r *Rng, n int, w *bufio.Writer) {
 		}
 		for _, at := range starts {
 			for _, key := range keys {
-				for _, vl := range []int{0, 1} {
+				for _, vl := range []int{0, 1, 3, 4} {
 					val := make([]byte, vl)
 					pair := append(append(append(compact(uint64(len(key))), key...), compact(uint64(len(val)))...), val...)
 					out := append(append(append([]byte{}, ser[:at]...), pair...), ser[at:]...)
